@@ -171,4 +171,27 @@ theorem iterators_independent (cfg : Cfg) (m : RawMap K V) (cap : Nat) (f : Nat)
 theorem items_fast_eq_abs (s : RState K V) (hs : SInv s) (hsm : Small s) :
     (view s).itemsFast Cfg.repaired = .ok (abs s) := view_itemsFast s hs hsm
 
+/-! ### non-vacuity -/
+
+/-- the history behind `demo_state`: ascending inserts of 0..39 followed by removals of 0..9 (splits at every level, then
+    borrows and merges on the left edge) -/
+def demoOps : List (C01.Op Int Nat) :=
+  (List.range 40).map (fun i => C01.Op.insert (Int.ofNat i) i) ++ (List.range 10).map (fun i => C01.Op.remove (Int.ofNat i))
+
+/-- **non-vacuity**: a concrete three-level state (root branch over branches over leaves, five freed leaf slots) reached through splits, borrows and merges meets the hypotheses
+    (`SInv`, `Small`) of the theorems of C02, C03, C04, C05, C06, C10 and C11 -/
+theorem demo_state : ∃ s : RState Int Nat, SInv s ∧ Small s ∧ s.height = 2 ∧ (abs s).length = 30 ∧ s.al.leaf.free.length = 5 := by
+  have h : (demoOps.foldl (fun (acc : Option (RState Int Nat)) op => acc.bind fun s => (C01.step s op).map (·.1)) (some (freshState 4))).map
+      (fun s => (s.height, (abs s).length, s.al.leaf.free.length, decide (s.al.leaf.len ≤ nullId ∧ s.al.branch.len ≤ nullId))) = some (2, 30, 5, true) := by decide
+  cases hr : demoOps.foldl (fun (acc : Option (RState Int Nat)) op => acc.bind fun s => (C01.step s op).map (·.1)) (some (freshState 4)) with
+  | none => rw [hr] at h; cases h
+  | some s =>
+    rw [hr] at h
+    simp only [Option.map_some, Option.some.injEq, Prod.mk.injEq, decide_eq_true_eq] at h
+    exact ⟨s, reachable_sinv demoOps (freshState 4) (sinv_fresh 4 (by decide)) s hr, h.2.2.2, h.1, h.2.1, h.2.2.1⟩
+
+/-- the iteration theorems at that state -/
+example : ∃ s : RState Int Nat, s.height = 2 ∧ (view s).items Cfg.repaired = .ok (abs s) ∧ (abs s).length = 30 := by
+  obtain ⟨s, hs, hsm, hh, hl, _⟩ := demo_state
+  exact ⟨s, hh, items_eq_abs s hs hsm, hl⟩
 end BPT.Props.C02
